@@ -14,3 +14,18 @@ package registry
 //@   requires reg:   regInv()
 //@   ensures  found: (err == nil) <==> (has(globalRegistryByID, enterpriseID) && has(globalRegistryByID[enterpriseID], elementID))
 //@   ensures  ok:    err == nil ==> regElemOK(r, elementID, enterpriseID) && r == globalRegistryByID[enterpriseID][elementID]
+
+// ---------------------------------------------------------------------------
+// Lookup by name (used by the aggregation process when it seeds per-node fields, C05)
+// ---------------------------------------------------------------------------
+
+//@ pure regHasName(e int, n string) bool = has(globalRegistryByName, e) && has(globalRegistryByName[e], n)
+//@ pure regNamed(e int, n string) *entities.InfoElement = globalRegistryByName[e][n]
+//@ // regNameInv: every by-name entry is a non-nil element that carries that name (checked for the loaded registry by enumeration, not deduced)
+//@ pure regNameInv() bool = forall e in [0, 4294967296): forall n: regHasName(e, n) ==> regNamed(e, n) != nil && regNamed(e, n).Name == n
+
+//@ func GetInfoElement(name, enterpriseID) (r, err)
+//@   requires reg:   regNameInv()
+//@   ensures  found: (err == nil) <==> regHasName(enterpriseID, name)
+//@   ensures  ok:    err == nil ==> r == regNamed(enterpriseID, name) && r != nil && r.Name == name
+//@   noeffect
